@@ -17,7 +17,7 @@
    One definition per Go method, same order of tests.  Implicit Go faults (index out of range in
    PositionalFromHash / makeValueHash, nil type assertion in createAttributesInfo) are explicit
    `Err EFault`.  Outside the modelled fragment (type parameters, functions, annotations, attribute
-   types other than Integer/String/Boolean/Optional/Array/Any/Undef/Variant[Undef,T]): `Err EOutsideModel`,
+   types other than Integer/String/Boolean/Optional/Array/Any/Undef/Variant[Undef,T]/Struct): `Err EOutsideModel`,
    never generated.
 
    A Go *objectType points to its parent; the model's objdef contains its parent, so every walk
@@ -48,6 +48,12 @@ Inductive ty :=
 | TAny                            (* accepts every value, undef included, without being an Optional *)
 | TUndef
 | TVarUndef (t : ty)              (* Variant[Undef, t]: accepts undef without being an Optional *)
+| TStructNil                      (* Struct[{..}]: the members as a cons-list inside ty (structtype.go StructType.elements); *)
+| TStructCons (k : str) (req : bool) (vt : ty) (rest : ty)
+                                  (* one StructElement: name, whether its KEY type rejects undef (String['k'] / NotUndef['k']:
+                                     req = true; Optional['k']: req = false - decided once, by NewStructElement structtype.go:53:
+                                     a plain key is optional iff the value type accepts undef), value type; then the other members.
+                                     A `rest` that is no struct ends the list. *)
 | TObj (n : str)                  (* an Object type referred to by name (only as a parent) *)
 | TOther (s : str).               (* any other type: only its text *)
 
@@ -72,12 +78,17 @@ Fixpoint ty_eqb (a b : ty) : bool :=
   | TAny, TAny => true
   | TUndef, TUndef => true
   | TVarUndef x, TVarUndef y => ty_eqb x y   (* VariantType.Equals: the same set of types; {Undef,x} = {Undef,y} iff x = y *)
+  | TStructNil, TStructNil => true
+  | TStructCons k1 r1 v1 t1, TStructCons k2 r2 v2 t2 => str_eqb k1 k2 && Bool.eqb r1 r2 && ty_eqb v1 v2 && ty_eqb t1 t2
   | TObj n, TObj m => str_eqb n m
   | TOther n, TOther m => str_eqb n m
   | _, _ => false
   end.
 
-(* structural equality = Value.Equals on the fragment (hashes never occur as attribute values) *)
+(* structural equality = Value.Equals on the fragment.  A Hash occurs as an attribute value only for Struct types; Hash.Equals
+   (hashtype.go:1067) is keyed (same size, every key of the one present in the other with an equal value) where this
+   comparison goes entry by entry: the two agree on hashes whose keys are listed in one fixed order (the harness lists the
+   keys of every generated Struct value in ascending order; the implementation hands back the hashes it was given) *)
 Fixpoint value_eqb (a b : value) : bool :=
   match a, b with
   | VUndef, VUndef => true
@@ -104,9 +115,35 @@ Fixpoint value_eqb (a b : value) : bool :=
   | _, _ => false
   end.
 
+(* hashes: lookup by key *)
+Fixpoint hget (h : list (str * value)) (k : str) : option value :=
+  match h with
+  | [] => None
+  | (k', v) :: r => if str_eqb k' k then Some v else hget r k
+  end.
+
+(* structtype.go:297 IsInstance for a Struct all of whose keys are optional except `required`:
+   every present key must satisfy its element, every required key must be present, and the number of
+   matched elements must equal the size of the hash (so an unknown key is rejected).
+   `elems` lists (key, required?, test). *)
+Fixpoint struct_matched (elems : list (str * bool * (value -> bool))) (h : list (str * value)) : option nat :=
+  match elems with
+  | [] => Some O
+  | (k, required, test) :: r =>
+    match hget h k with
+    | Some v => if test v then option_map S (struct_matched r h) else None
+    | None => if required then None else struct_matched r h
+    end
+  end.
+Definition struct_inst (elems : list (str * bool * (value -> bool))) (v : value) : bool :=
+  match v with
+  | VHash h => match struct_matched elems h with Some n => Nat.eqb n (length h) | None => false end
+  | _ => false
+  end.
+
 (* integertype.go IsInstance, stringtype.go, booleantype.go, optionaltype.go, arraytype.go, anytype.go:41,
    undeftype.go:49, varianttype.go:101 *)
-Fixpoint inst (t : ty) (v : value) : bool :=
+Fixpoint inst (t : ty) (v : value) {struct t} : bool :=
   match t with
   | TInteger lo hi => match v with VInt z => (lo <=? z) && (z <=? hi) | _ => false end
   | TString => match v with VStr _ | VTyStr _ => true | _ => false end
@@ -121,7 +158,16 @@ Fixpoint inst (t : ty) (v : value) : bool :=
   | TAny => true
   | TUndef => match v with VUndef => true | _ => false end
   | TVarUndef t' => match v with VUndef => true | _ => inst t' v end
+  (* structtype.go:303 StructType.IsInstance: a Hash; a member that is present must be an instance of the value
+     type, one that is absent must have a key type that accepts undef; no other keys (matched == Len) *)
+  | TStructNil => struct_inst [] v
+  | TStructCons k req vt rest => struct_inst ((k, req, inst vt) :: struct_elems rest) v
   | TObj _ | TOther _ => false
+  end
+with struct_elems (t : ty) {struct t} : list (str * bool * (value -> bool)) :=
+  match t with
+  | TStructCons k req vt rest => (k, req, inst vt) :: struct_elems rest
+  | _ => []
   end.
 
 (* IsAssignable on the fragment: types.go:113 GuardedIsAssignable(a, b) — a is Any: true; b is Optional[b']:
@@ -132,8 +178,28 @@ Definition accepts_undef_ty (a : ty) : bool :=
   match a with TAny | TUndef | TOptional _ | TVarUndef _ => true | _ => false end.
 Definition is_undef_ty (b : ty) : bool := match b with TUndef => true | _ => false end.
 
+(* the members of a Struct type on the right-hand side: HashedMembers (by name), len(hm) *)
+Fixpoint sfind (b : ty) (k : str) : option (bool * ty) :=
+  match b with
+  | TStructCons k' req vt rest => if str_eqb k' k then Some (req, vt) else sfind rest k
+  | _ => None
+  end.
+Fixpoint scount (b : ty) : nat :=
+  match b with TStructCons _ _ _ rest => S (scount rest) | _ => O end.
+Definition is_struct_ty (b : ty) : bool :=
+  match b with TStructNil | TStructCons _ _ _ _ => true | _ => false end.
+
+(* structtype.go:265 StructType.IsAssignable(o *StructType), one member e1 of the receiver: when o has no member of
+   that name e1's key must accept undef; otherwise e1.key must accept e2.key (Optional['k'] accepts both forms,
+   String['k'] only String['k']) and e1.value must accept e2.value; the matched members are counted *)
+Definition sasg_step (k : str) (req : bool) (b : ty) (av : ty -> bool) (rest_n : option nat) : option nat :=
+  match sfind b k with
+  | None => if req then None else rest_n
+  | Some (req2, vt2) => if (negb req || req2) && av vt2 then option_map S rest_n else None
+  end.
+
 Fixpoint asg (a : ty) : ty -> bool :=
-  fix inner (b : ty) : bool :=
+  (fix inner (b : ty) : bool :=
     match a with
     | TAny => true
     | _ =>
@@ -148,10 +214,20 @@ Fixpoint asg (a : ty) : ty -> bool :=
         | TArray a' => match b with TArray b' => asg a' b' | _ => false end
         | TUndef => is_undef_ty b
         | TAny => true
+        | TStructNil => is_struct_ty b && Nat.eqb O (scount b)
+        | TStructCons k req vt rest =>
+          is_struct_ty b &&
+          match sasg_step k req b (asg vt) (sasg rest b) with Some n => Nat.eqb n (scount b) | None => false end
         | TObj _ | TOther _ => false
         end
       end
-    end.
+    end)
+with sasg (a : ty) : ty -> option nat :=
+  fun b =>
+  match a with
+  | TStructCons k req vt rest => sasg_step k req b (asg vt) (sasg rest b)
+  | _ => Some O
+  end.
 
 Definition is_optional_ty (t : ty) : bool := match t with TOptional _ => true | _ => false end.
 
@@ -402,11 +478,6 @@ Definition is_member_name_value (v : value) : bool :=
 (* ---------------------------------------------------------------------------------------------- *)
 (* hashes *)
 
-Fixpoint hget (h : list (str * value)) (k : str) : option value :=
-  match h with
-  | [] => None
-  | (k', v) :: r => if str_eqb k' k then Some v else hget r k
-  end.
 
 Definition k_name := Eval compute in s2l "name".
 Definition k_parent := Eval compute in s2l "parent".
@@ -428,25 +499,6 @@ Definition s_constant := Eval compute in s2l "constant".
 Definition s_derived := Eval compute in s2l "derived".
 Definition s_given_or_derived := Eval compute in s2l "given_or_derived".
 Definition s_reference := Eval compute in s2l "reference".
-
-(* structtype.go:297 IsInstance for a Struct all of whose keys are optional except `required`:
-   every present key must satisfy its element, every required key must be present, and the number of
-   matched elements must equal the size of the hash (so an unknown key is rejected).
-   `elems` lists (key, required?, test). *)
-Fixpoint struct_matched (elems : list (str * bool * (value -> bool))) (h : list (str * value)) : option nat :=
-  match elems with
-  | [] => Some O
-  | (k, required, test) :: r =>
-    match hget h k with
-    | Some v => if test v then option_map S (struct_matched r h) else None
-    | None => if required then None else struct_matched r h
-    end
-  end.
-Definition struct_inst (elems : list (str * bool * (value -> bool))) (v : value) : bool :=
-  match v with
-  | VHash h => match struct_matched elems h with Some n => Nat.eqb n (length h) | None => false end
-  | _ => false
-  end.
 
 Definition is_bool (v : value) : bool := match v with VBool _ => true | _ => false end.
 Definition is_string (v : value) : bool := match v with VStr _ | VTyStr _ => true | _ => false end.
@@ -799,8 +851,30 @@ Definition define (rt : route) (env : list objdef) (name : str) (hv : value) : r
 
 (* createInitType :1077 — one Struct element per constructor attribute: the key is optional for
    given_or_derived and for attributes with a value *)
+(* typeAndInit objecttype.go:1226: the type a NAMED argument is checked against. Array, Optional, Variant and Struct are
+   rebuilt around the derived member types; a Struct member keeps its KEY type as it is (`key: se.key`): whether the
+   member may be left out is not derived again from the new value type. Every other type of the fragment is returned
+   as it is (an Object type would become Variant[T, init Struct of T], NotUndef[T] an Optional: outside the fragment) *)
+Fixpoint type_and_init (t : ty) : ty :=
+  match t with
+  | TArray e => TArray (type_and_init e)
+  | TOptional e => TOptional (type_and_init e)
+  | TVarUndef e => TVarUndef (type_and_init e)
+  | TStructCons k req vt rest => TStructCons k req (type_and_init vt) (type_and_init rest)
+  | _ => t
+  end.
+
+(* the members of a Struct type with the flag of their key (true: the member must be present) *)
+Fixpoint struct_reqs (t : ty) : list (str * bool) :=
+  match t with TStructCons k req _ rest => (k, req) :: struct_reqs rest | _ => [] end.
+
 Definition init_struct (info : ainfo) : list (str * bool * (value -> bool)) :=
-  map (fun a => (a_name a, negb (is_opt_attr a), inst (a_type a))) (ai_attrs info).
+  map (fun a => (a_name a, negb (is_opt_attr a), inst (type_and_init (a_type a)))) (ai_attrs info).
+
+(* the same as a type of the fragment: what the signature of the named dispatcher shows *)
+Definition init_type (info : ainfo) : ty :=
+  fold_right (fun a rest => TStructCons (a_name a) (negb (is_opt_attr a)) (type_and_init (a_type a)) rest)
+             TStructNil (ai_attrs info).
 
 (* tupletype.go:309 IsInstance3 with types ts and size [lo, hi] *)
 Fixpoint tuple_elems (ts : list ty) (last : ty) (args : list value) : bool :=
